@@ -70,6 +70,18 @@ def r16a(ctx):
     ctx.instance("R16a", f"{f.file}:{f.ident}", f"iterates the text nodes of {q!r}", ok=ok, nontrivial=True)
     if not ok:
         ctx.report("R16a", f, loop or f.node, f"text nodes query {q!r}", "replace() no longer visits every descendant text node exactly once")
+    # the per-node loop is on every normal path: no early exit decided on the concatenated text
+    from ..paths import cfg_of, node_of
+    cfg = cfg_of(f)
+    if loop is not None:
+        cex = cfg.path_avoiding(cfg.entry, cfg.exit, [node_of(cfg, loop)], follow_exc=False)
+        ctx.instance("R16a", f"{f.file}:{f.ident}", "every normal path of replace() runs the per-text-node loop", ok=cex is None, nontrivial=True, line=loop.lineno)
+        if cex is not None:
+            esc = [x for x in cex if x.stmt is not None and isinstance(x.stmt, ast.Return)]
+            ctx.report("R16a", f, esc[0].stmt if esc else loop, f"replace() can return without visiting the text nodes: {norm(esc[0].stmt, 40) if esc else ''}",
+                       "matches are defined per individual text run; a path that returns before the per-node loop decides on something else (the joined text, "
+                       "a cached answer): anchored or context-sensitive patterns are then counted/replaced differently from the regular expression applied to each run",
+                       path=[repr(x) for x in cex if x.stmt is not None][:8])
     incs = [a for a in ast.walk(arm) if isinstance(a, ast.AugAssign) and isinstance(a.target, ast.Name)]
     body_incs = [a for s_ in arm.body for a in ast.walk(s_) if isinstance(a, ast.AugAssign)]
     else_incs = [a for s_ in arm.orelse for a in ast.walk(s_) if isinstance(a, ast.AugAssign)]
@@ -219,6 +231,9 @@ SEEDS = [
     Seed("count uses search instead of findall", "fault", _EL,
          "                count += len(cpattern.findall(str(text)))", "                count += 1 if cpattern.search(str(text)) else 0", "R16a"),
     Seed("replace visits only direct text", "fault", _EL, '        for text in self.xpath("descendant::text()"):', '        for text in self.xpath("text()"):', "R16a"),
+    Seed("early exit decided on the joined text", "fault", _EL,
+         "        cpattern = re.compile(pattern)\n        count = 0\n        for text in self.xpath(\"descendant::text()\"):",
+         "        cpattern = re.compile(pattern)\n        if cpattern.search(self.text_recursive) is None:\n            return 0\n        count = 0\n        for text in self.xpath(\"descendant::text()\"):", "R16a"),
     Seed("write-back slots swapped", "fault", _EL,
          "                if text.is_text():  # type: ignore\n                    container.text = new_text  # type: ignore\n                else:\n                    container.tail = new_text  # type: ignore",
          "                if text.is_text():  # type: ignore\n                    container.tail = new_text  # type: ignore\n                else:\n                    container.text = new_text  # type: ignore", "R16b"),
